@@ -17,10 +17,14 @@ package assets
 //@   flag prune
 //@   ensures[C10.pa.rcc.gateway] err != nil && state(ctx) == old(state(ctx))
 
+// RegisterToken additionally (C09): whatever makes it fail - also for the gateway itself - it leaves no trace: the oracle
+// token and feeder are registered only if the staking asset can be registered as well.
 //@ func (Precompile).RegisterToken
-//@   requires contract != nil && !gatewayOK(ctx, contract.CallerAddress)
-//@   flag prune
-//@   ensures[C10.pa.rt.gateway] err != nil && state(ctx) == old(state(ctx))
+//@   requires contract != nil
+//@   flag pure=TokenFromInputs,Pack
+//@   modifies state(ctx)
+//@   ensures[C10.pa.rt.gateway] old(!gatewayOK(ctx, contract.CallerAddress)) ==> err != nil && state(ctx) == old(state(ctx))
+//@   ensures[C09.pa.rt.atomic]  err != nil && !defined(res_Pack_0) ==> state(ctx) == old(state(ctx))
 
 //@ func (Precompile).UpdateToken
 //@   requires contract != nil && !gatewayOK(ctx, contract.CallerAddress)
